@@ -8,6 +8,8 @@ package main
 
 import (
 	"fmt"
+	"math"
+	"math/bits"
 	"math/rand"
 	"sort"
 	"strconv"
@@ -44,7 +46,7 @@ func (c scase) line() string {
 }
 
 var segOps = map[string]bool{"active": true, "magat": true, "maxafter": true, "cut": true, "shift": true, "mactive": true,
-	"mmagat": true, "mmaxafter": true, "mcut": true, "mshift": true, "dur": true, "max": true, "summag": true, "sum": true, "msum": true}
+	"mmagat": true, "mmaxafter": true, "mcut": true, "mshift": true, "mminat": true, "dur": true, "max": true, "summag": true, "sum": true, "msum": true}
 
 // ---- plain values (the harness's own representation; the oracle works on these only) -----------
 
@@ -184,9 +186,13 @@ var base = time.Unix(1_700_000_000, 0).UTC()
 func at(ns int64) time.Time { return base.Add(time.Duration(ns)) }
 
 func pbSeg(s sg) *traits.ElectricMode_Segment {
-	out := &traits.ElectricMode_Segment{Magnitude: float32(s.mag)}
+	out := &traits.ElectricMode_Segment{Magnitude: float32(math.Ldexp(float64(s.mag), -magShift))}
 	if !s.inf {
 		out.Length = durationpb.New(time.Duration(s.len))
+		if s.len == math.MaxInt64 {
+			// a proto beyond the int64 ns range: AsDuration saturates it to exactly this length
+			out.Length = &durationpb.Duration{Seconds: 9223372037}
+		}
 	}
 	return out
 }
@@ -260,11 +266,24 @@ func (g *guardedMode) changed() string {
 	return g.g.changed()
 }
 
-func showMag(f float32) string {
-	if f == float32(int64(f)) {
-		return strconv.FormatInt(int64(f), 10)
+// magShift: magnitudes in request lines are integers n standing for the real magnitude n / 2^magShift.
+// 0 for every tier but the float32 tier, where fractional float32 magnitudes are represented exactly
+// by their numerators over a fixed power-of-two denominator (exact rational arithmetic in the model).
+var magShift int
+
+func scaled(f float32) (int64, bool) {
+	v := math.Ldexp(float64(f), magShift)
+	if v != math.Trunc(v) || math.Abs(v) >= 1<<62 {
+		return 0, false
 	}
-	return strconv.FormatFloat(float64(f), 'g', -1, 32)
+	return int64(v), true
+}
+
+func showMag(f float32) string {
+	if n, ok := scaled(f); ok {
+		return strconv.FormatInt(n, 10)
+	}
+	return strconv.FormatFloat(float64(f), 'g', -1, 32) + "*2^" + strconv.Itoa(magShift)
 }
 
 func showPBSeg(s *traits.ElectricMode_Segment) string {
@@ -414,6 +433,63 @@ func (c scase) runCode() (o outcome) {
 				o.text = showPBMode(o.mode)
 			}
 			o.mutated = g.changed()
+		case "mminat":
+			x := mustInt(c.D)
+			ms := parseMds(c.L)
+			gs := make([]*guardedMode, len(ms))
+			arg := map[string]*traits.ElectricMode{}
+			for i, m := range ms {
+				gs[i] = guardMode(m)
+				arg[fmt.Sprintf("m%d", i)] = gs[i].mode
+			}
+			index := func(p *traits.ElectricMode) int {
+				for i, g := range gs {
+					if g.mode == p {
+						return i
+					}
+				}
+				return -1
+			}
+			mode, mag := modepb.MinAt(at(x), arg)
+			o.mag = mag
+			if mode == nil {
+				o.text = "nil"
+				o.ints = []int64{-1}
+			} else {
+				idx := index(mode)
+				o.ints = []int64{int64(idx)}
+				// how many modes share the returned magnitude (by the real MagnitudeAt)
+				n := 0
+				for _, g := range gs {
+					if v, _ := modepb.MagnitudeAt(at(x), g.mode); v == mag {
+						n++
+					}
+				}
+				if n == 1 {
+					o.text = showMag(mag) + "|" + strconv.Itoa(idx)
+				} else {
+					o.text = showMag(mag) + "|tie"
+				}
+				// measure (not judge) the dependence of the returned mode on the map iteration order
+				for rep := 0; rep < 6; rep++ {
+					again, mag2 := modepb.MinAt(at(x), arg)
+					if mag2 != mag {
+						o.text += fmt.Sprintf("|magnitude-varied:%v", mag2)
+					}
+					if again != mode {
+						o.ok = true // mode varied between calls
+					}
+				}
+			}
+			if len(arg) != len(ms) {
+				o.mutated = "the map argument was modified"
+			}
+			for i, g := range gs {
+				if m := g.changed(); m != "" {
+					o.mutated = fmt.Sprintf("mode %d: %s", i, m)
+					break
+				}
+			}
 		case "msum":
 			ms := parseMds(c.L)
 			gs := make([]*guardedMode, len(ms))
@@ -495,10 +571,11 @@ func realMag(t int64, l []*traits.ElectricMode_Segment) int64 {
 	if !ok {
 		return 0
 	}
-	if m != float32(int64(m)) {
-		return int64(m*1000) + 1<<40 // non-integral magnitude: cannot be equal to any expected integer
+	n, ok := scaled(m)
+	if !ok {
+		return math.MinInt64 + 12345 // not on the magnitude grid: cannot equal any expected value
 	}
-	return int64(m)
+	return n
 }
 
 // realModeMag evaluates a (possibly nil) result mode at absolute instant x; a mode without a start
@@ -528,7 +605,7 @@ func bestFrom(l []sg, from int) (best int64, found bool) {
 
 var opName = map[string]string{"active": "ActiveAt", "magat": "MagnitudeAt", "maxafter": "MaxAfter", "cut": "Cut", "shift": "Shift",
 	"dur": "Duration", "max": "Max", "summag": "SumMagnitude", "sum": "Sum", "mactive": "modepb.ActiveAt", "mmagat": "modepb.MagnitudeAt",
-	"mmaxafter": "modepb.MaxSegmentAfter", "mcut": "modepb.Cut", "mshift": "modepb.Shift", "msum": "modepb.Sum"}
+	"mmaxafter": "modepb.MaxSegmentAfter", "mcut": "modepb.Cut", "mshift": "modepb.Shift", "msum": "modepb.Sum", "mminat": "modepb.MinAt"}
 
 func (c scase) monitor(m *lib.Monitor, o outcome) {
 	name := opName[c.Op]
@@ -541,6 +618,12 @@ func (c scase) monitor(m *lib.Monitor, o outcome) {
 	}
 	bad := func(class, what, want, got string) {
 		m.Violate("C18/"+name+"/"+class, what, c, want, got)
+	}
+	if c.beyondInt64() {
+		// total length (plus shift) of 2^63 ns or more: outside the hypothesis under which the step-function
+		// laws are claimed (C18_int64_*); the tie still compares the wrap-around behaviour with the model
+		m.Count("excluded:int64-overflow")
+		return
 	}
 	switch c.Op {
 	case "active", "mactive":
@@ -636,11 +719,14 @@ func (c scase) monitor(m *lib.Monitor, o outcome) {
 			}
 			return
 		}
-		h := horizon(l) + d + 3
-		for t := int64(-2); t <= h+1; t++ {
-			if t == h+1 {
-				t = 1000
+		pts := []int64{0, d}
+		if !s.inf {
+			pts = append(pts, s.len)
+			if x, ok := subOK(s.len, d); ok {
+				pts = append(pts, x)
 			}
+		}
+		for _, t := range samplePoints(pts) {
 			want, _, _ := stepAt(l, t)
 			if t < d {
 				if got := realMag(t, optList(o.before)); got != want {
@@ -651,7 +737,11 @@ func (c scase) monitor(m *lib.Monitor, o outcome) {
 				bad("before-too-long", "the part before the cut is non-zero at or after d", fmt.Sprintf("0 at t=%d", t), strconv.FormatInt(got, 10))
 				break
 			}
-			wantAfter, _, _ := stepAt(l, t+d)
+			td, ok := addOK(t, d)
+			if !ok {
+				continue
+			}
+			wantAfter, _, _ := stepAt(l, td)
 			if t < 0 {
 				wantAfter = 0
 			}
@@ -662,14 +752,19 @@ func (c scase) monitor(m *lib.Monitor, o outcome) {
 		}
 	case "shift":
 		l, d := parseSgs(c.L), mustInt(c.D)
-		h := horizon(l) + abs(d) + 3
-		for t := int64(-2); t <= h+1; t++ {
-			if t == h+1 {
-				t = 1000
+		var pts []int64
+		for _, b := range breakpoints(l) {
+			pts = append(pts, b)
+			if x, ok := addOK(b, d); ok {
+				pts = append(pts, x)
 			}
-			want, _, _ := stepAt(l, t-d)
-			if t < 0 {
-				want = 0
+		}
+		for _, t := range samplePoints(pts) {
+			var want int64
+			if td, ok := subOK(t, d); ok && t >= 0 {
+				want, _, _ = stepAt(l, td)
+			} else if !ok && t >= 0 && d < 0 {
+				want = far([][]sg{l}, 0, 0) // t-d lies beyond every int64 instant: the value "at infinity"
 			}
 			if got := realMag(t, o.segs); got != want {
 				bad("not-translation", "Shift(d) is not the step function translated by d", fmt.Sprintf("%d at t=%d", want, t), fmt.Sprintf("%d (result %s)", got, o.text))
@@ -678,11 +773,11 @@ func (c scase) monitor(m *lib.Monitor, o outcome) {
 		}
 	case "sum":
 		ls := parseSgLists(c.L)
-		h := horizon(ls...) + 3
-		for t := int64(-2); t <= h+1; t++ {
-			if t == h+1 {
-				t = 1000
-			}
+		var pts []int64
+		for _, l := range ls {
+			pts = append(pts, breakpoints(l)...)
+		}
+		for _, t := range samplePoints(pts) {
 			var want int64
 			for _, l := range ls {
 				v, _, _ := stepAt(l, t)
@@ -690,9 +785,10 @@ func (c scase) monitor(m *lib.Monitor, o outcome) {
 			}
 			if got := realMag(t, o.segs); got != want {
 				if droppedTail(o.segs, t, want, far(ls, 0, 0)) && got == 0 {
+					// the defect repaired by fix: 5957697, should it come back: its own signature
 					bad("negative-infinite-tail-dropped", "Sum drops the final length-less segment when its summed magnitude is negative",
 						fmt.Sprintf("%d at t=%d", want, t), fmt.Sprintf("%d (result %s)", got, o.text))
-					continue
+					break
 				}
 				bad("not-pointwise", "Sum is not the pointwise sum of the step functions", fmt.Sprintf("%d at t=%d", want, t), fmt.Sprintf("%d (result %s)", got, o.text))
 				break
@@ -762,6 +858,37 @@ func (c scase) monitor(m *lib.Monitor, o outcome) {
 		if o.mode != nil && (o.mode.StartTime != nil) != mode.hasStart {
 			bad("start-time-presence", "modepb.Shift must keep the presence of the start time", fmt.Sprint(mode.hasStart), o.text)
 		}
+	case "mminat":
+		ms, x := parseMds(c.L), mustInt(c.D)
+		if len(ms) == 0 {
+			if o.text != "nil" {
+				bad("empty", "MinAt of no modes must return a nil mode", "nil", o.text)
+			}
+			return
+		}
+		val := func(mo md) int64 {
+			var d int64
+			if mo.hasStart {
+				d = x - mo.start
+			}
+			v, _, _ := stepAt(mo.segs, d)
+			return v
+		}
+		best := val(ms[0])
+		for _, mo := range ms[1:] {
+			if v := val(mo); v < best {
+				best = v
+			}
+		}
+		if showMag(o.mag) != strconv.FormatInt(best, 10) {
+			bad("wrong-magnitude", "MinAt does not return the smallest magnitude at t", strconv.FormatInt(best, 10), o.text)
+		}
+		if idx := int(o.ints[0]); idx < 0 || idx >= len(ms) || val(ms[idx]) != best {
+			bad("wrong-mode", "MinAt does not return a mode whose magnitude at t is the smallest", fmt.Sprintf("a mode with magnitude %d", best), fmt.Sprintf("mode #%d (%s)", idx, o.text))
+		}
+		if o.ok {
+			m.Count("mminat/returned-mode-varied-between-calls(ties; measured, not a violation)")
+		}
 	case "msum":
 		ms := parseMds(c.L)
 		if len(ms) == 0 {
@@ -813,7 +940,7 @@ func (c scase) monitor(m *lib.Monitor, o outcome) {
 				if droppedTail(o.mode.Segments, y-earliest, want, far(all, 0, 0)) && got == 0 {
 					bad("negative-infinite-tail-dropped", "modepb.Sum (through segmentpb.Sum) drops the final length-less segment when its summed magnitude is negative",
 						fmt.Sprintf("%d at %d", want, y), fmt.Sprintf("%d (%s)", got, o.text))
-					continue
+					break
 				}
 				bad("not-pointwise", "modepb.Sum is not the pointwise sum of the modes", fmt.Sprintf("%d at %d", want, y), fmt.Sprintf("%d (%s)", got, o.text))
 				break
@@ -856,6 +983,119 @@ func (c scase) safeMonitor(m *lib.Monitor, o outcome) {
 	if panicked {
 		m.Violate("C18/"+opName[c.Op]+"/result-unusable", "the result of the operation cannot be read as a step function (MagnitudeAt panics on it)", c, "a well-formed result", o.text+" -> panic: "+msg)
 	}
+}
+
+// ---- int64 care ---------------------------------------------------------------------------------
+
+func addOK(a, b int64) (int64, bool) {
+	c := a + b
+	if (b > 0 && c < a) || (b < 0 && c > a) {
+		return 0, false
+	}
+	return c, true
+}
+
+func subOK(a, b int64) (int64, bool) {
+	c := a - b
+	if (b > 0 && c > a) || (b < 0 && c < a) {
+		return 0, false
+	}
+	return c, true
+}
+
+// totalOK: the total of the present lengths, and whether it (and every length) is a sane int64 value.
+func totalOK(l []sg) (int64, bool) {
+	var tot int64
+	for _, s := range l {
+		if s.inf {
+			continue
+		}
+		if s.len < 0 {
+			return 0, false
+		}
+		var ok bool
+		if tot, ok = addOK(tot, s.len); !ok {
+			return 0, false
+		}
+	}
+	return tot, true
+}
+
+// beyondInt64 reports whether the case lies outside the no-overflow hypothesis of the theorems.
+func (c scase) beyondInt64() bool {
+	switch c.Op {
+	case "active", "magat", "maxafter", "dur", "max", "summag":
+		_, ok := totalOK(parseSgs(c.L))
+		return !ok
+	case "shift":
+		tot, ok := totalOK(parseSgs(c.L))
+		d := mustInt(c.D)
+		if !ok || d == math.MinInt64 {
+			return true
+		}
+		if d > 0 {
+			_, ok = addOK(tot, d)
+		}
+		return !ok
+	case "sum":
+		for _, l := range parseSgLists(c.L) {
+			if _, ok := totalOK(l); !ok {
+				return true
+			}
+		}
+	}
+	return false
+}
+
+// breakpoints: 0 and every cumulative length of the reachable segments.
+func breakpoints(l []sg) []int64 {
+	sp, end, _ := spans(l)
+	pts := []int64{0, end}
+	for _, p := range sp {
+		pts = append(pts, p.from)
+	}
+	return pts
+}
+
+// samplePoints: every integer ns from 2 before the smallest to 3 after the largest of pts plus a far
+// instant when that range is small; otherwise each point and its two neighbours, the instants around
+// 0 and a far instant.
+func samplePoints(pts []int64) []int64 {
+	lo, hi := int64(0), int64(0)
+	for _, b := range pts {
+		if b > hi {
+			hi = b
+		}
+		if b < lo {
+			lo = b
+		}
+	}
+	set := map[int64]bool{}
+	if hi <= 64 && lo >= -64 {
+		for t := lo - 2; t <= hi+3; t++ {
+			set[t] = true
+		}
+		set[hi+1000] = true
+	} else {
+		for _, b := range append([]int64{0, -1}, pts...) {
+			for _, dx := range []int64{-1, 0, 1} {
+				if x, ok := addOK(b, dx); ok {
+					set[x] = true
+				}
+			}
+		}
+		if x, ok := addOK(hi, 1000); ok {
+			set[x] = true
+		} else {
+			set[math.MaxInt64] = true
+		}
+	}
+	out := make([]int64, 0, len(set))
+	for t := range set {
+		out = append(out, t)
+	}
+	sort.Slice(out, func(i, j int) bool { return out[i] < out[j] })
+	return out
 }
 
 func optList(s *traits.ElectricMode_Segment) []*traits.ElectricMode_Segment {
@@ -935,7 +1175,7 @@ func randMd(r *rand.Rand, noStart bool) md {
 
 func randSegCase(r *rand.Rand) scase {
 	itoa := func(x int64) string { return strconv.FormatInt(x, 10) }
-	switch r.Intn(16) {
+	switch r.Intn(17) {
 	case 0:
 		l := randSgs(r)
 		return scase{"active", itoa(aroundBreakpoints(r, l)), showSgs(l)}
@@ -990,6 +1230,13 @@ func randSegCase(r *rand.Rand) scase {
 			d = -d
 		}
 		return scase{"mshift", itoa(d), showMd(m)}
+	case 15:
+		n := r.Intn(5)
+		ms := make([]md, n)
+		for i := range ms {
+			ms[i] = randMd(r, false)
+		}
+		return scase{"mminat", itoa(int64(r.Intn(12)) - 2), showMds(ms)}
 	default:
 		n := 1 + r.Intn(4)
 		if r.Intn(25) == 0 {
@@ -1029,6 +1276,64 @@ func smallLists(n int) [][]sg {
 	return out
 }
 
+// ---- near-overflow lengths ---------------------------------------------------------------------
+
+var hugeLens = []int64{1 << 62, 1<<62 - 1, 1<<62 + 1, math.MaxInt64, math.MaxInt64 - 1, math.MaxInt64 - 5, 1 << 61, 3, 1, 0}
+
+func randHugeSgs(r *rand.Rand) []sg {
+	n := 1 + r.Intn(3)
+	l := make([]sg, n)
+	for i := range l {
+		l[i] = sg{mag: int64(r.Intn(5)) - 1, len: hugeLens[r.Intn(len(hugeLens))]}
+	}
+	if r.Intn(4) == 0 {
+		l[n-1].inf, l[n-1].len = true, 0
+	}
+	return l
+}
+
+func randHugeD(r *rand.Rand, l []sg) int64 {
+	var cur int64 // wrapping on purpose: any int64 is a legal argument
+	pts := []int64{0, math.MaxInt64, math.MinInt64, math.MinInt64 + 1}
+	for _, s := range l {
+		if !s.inf {
+			cur += s.len
+			pts = append(pts, cur)
+		}
+	}
+	d := pts[r.Intn(len(pts))] + int64(r.Intn(3)) - 1
+	if r.Intn(3) == 0 {
+		d = -d
+	}
+	return d
+}
+
+func randHugeCase(r *rand.Rand) scase {
+	itoa := func(x int64) string { return strconv.FormatInt(x, 10) }
+	l := randHugeSgs(r)
+	switch r.Intn(8) {
+	case 0:
+		return scase{"active", itoa(randHugeD(r, l)), showSgs(l)}
+	case 1:
+		return scase{"magat", itoa(randHugeD(r, l)), showSgs(l)}
+	case 2:
+		return scase{"maxafter", itoa(randHugeD(r, l)), showSgs(l)}
+	case 3:
+		return scase{"dur", "", showSgs(l)}
+	case 4:
+		s := l[0]
+		return scase{"cut", itoa(randHugeD(r, l[:1])), showSg(s)}
+	case 5, 6:
+		return scase{"shift", itoa(randHugeD(r, l)), showSgs(l)}
+	default:
+		ls := [][]sg{l}
+		if r.Intn(2) == 0 {
+			ls = append(ls, randHugeSgs(r))
+		}
+		return scase{"sum", "", showSgLists(ls)}
+	}
+}
+
 func runSeg(f lib.Flags, res *lib.Result, drv *lib.Driver) {
 	mon := res.Monitor("segment-step-function",
 		"every tie case also goes through an independent Go oracle (segments laid out as spans on the time axis): ActiveAt/MagnitudeAt/Duration/Max* against their documented meaning; "+
@@ -1040,7 +1345,7 @@ func runSeg(f lib.Flags, res *lib.Result, drv *lib.Driver) {
 	k2 := res.Tie("segments-exhaustive-small", "K2",
 		"all lists of <=3 segments over mag {-1,0,1,2} x len {0,1,2,absent}: Duration, Max, SumMagnitude on each; ActiveAt, MagnitudeAt, MaxAfter, Shift for every d in -1..total+1 (Shift also -d); "+
 			"Cut of every segment at d in -1..4; Sum of all ordered pairs of lists of <=2 segments (quick) / plus all triples of lists of <=1 segment and pairs (<=3, <=1) (thorough); "+
-			"modepb read/Cut/Shift on lists of <=2 segments x start in {absent,0,2} x t in -1..total+3 (d in -3..3), modepb.Sum of all pairs of lists of <=1 segment and all triples over {e, 1/1, 2/i}, each x starts {absent,0,2}; distinct = distinct request line; non-trivial = some list non-empty")
+			"modepb read/Cut/Shift on lists of <=2 segments x start in {absent,0,2} x t in -1..total+3 (d in -3..3), modepb.Sum of all pairs of lists of <=1 segment and all triples over {e, 1/1, 2/i}, each x starts {absent,0,2}, modepb.MinAt of all pairs of lists of <=1 segment x t in -1..4 (the returned mode is compared only when the minimum is unique: it depends on map iteration order otherwise); distinct = distinct request line; non-trivial = some list non-empty")
 	k2.Exhaustive = true
 	var cases []scase
 	l3 := smallLists(3)
@@ -1107,6 +1412,17 @@ func runSeg(f lib.Flags, res *lib.Result, drv *lib.Driver) {
 			}
 		}
 	}
+	for _, a := range l1 {
+		for _, b := range l1 {
+			for _, sb := range starts {
+				ms := []md{{true, 0, a}, {sb.hasStart, sb.start, b}}
+				for x := int64(-1); x <= 4; x++ {
+					cases = append(cases, scase{"mminat", itoa(x), showMds(ms)})
+				}
+			}
+		}
+	}
+	cases = append(cases, scase{"mminat", "0", "none"})
 	tiny := [][]sg{nil, {{mag: 1, len: 1}}, {{mag: 2, inf: true}}}
 	for _, a := range tiny {
 		for _, b := range tiny {
@@ -1136,6 +1452,166 @@ func runSeg(f lib.Flags, res *lib.Result, drv *lib.Driver) {
 		cases = append(cases, randSegCase(r))
 	}
 	compareSeg(k1, mon, drv, cases)
+	runSegEdges(f, res, drv, mon)
+	runSegFloat(f, res, drv, mon)
+}
+
+// ---- float32 tier ------------------------------------------------------------------------------
+
+// floatSafe: every sum of any sub-multiset of the edges {+n, -n} of the magnitudes in ls is exactly
+// representable in float32 — all magnitudes are multiples of 2^z/2^magShift and twice the total of their
+// absolute values is below 2^24 such units.  An independent, order-free sufficient criterion for
+// "float32 addition in Sum/SumMagnitude is exact whatever the order".
+func floatSafe(ls [][]sg) bool {
+	tz := 63
+	var tot uint64
+	for _, l := range ls {
+		for _, s := range l {
+			if s.mag == 0 {
+				continue
+			}
+			a := uint64(abs(s.mag))
+			if z := bits.TrailingZeros64(a); z < tz {
+				tz = z
+			}
+			tot += a
+		}
+	}
+	if tot == 0 {
+		return true
+	}
+	return (2*tot)>>uint(tz) < 1<<24
+}
+
+// f32grid returns n with float32(x) == n / 2^40 exactly.
+func f32grid(x float64) int64 {
+	f := float32(x)
+	return int64(math.Ldexp(float64(f), 40))
+}
+
+func randFloatSgs(r *rand.Rand, family int) []sg {
+	n := r.Intn(5)
+	l := make([]sg, n)
+	for i := range l {
+		var mag int64
+		switch family {
+		case 0: // eighths, |m| <= 128: always safe at shift 3
+			mag = int64(r.Intn(2049)) - 1024
+		case 1: // one- and two-digit decimals as float32, on the 2^-40 grid
+			if r.Intn(2) == 0 {
+				mag = f32grid(float64(r.Intn(81)-30) / 10)
+			} else {
+				mag = f32grid(float64(r.Intn(2001)-500) / 100)
+			}
+		}
+		if r.Intn(6) == 0 {
+			mag = 0
+		}
+		l[i] = sg{mag: mag, len: int64(r.Intn(5))}
+	}
+	if n > 0 && r.Intn(3) == 0 {
+		l[n-1].inf, l[n-1].len = true, 0
+	}
+	return l
+}
+
+func runSegFloat(f lib.Flags, res *lib.Result, drv *lib.Driver, mon *lib.Monitor) {
+	k := res.Tie("segments-float32", "K1",
+		"fractional float32 magnitudes, represented exactly by integer numerators over 2^3 (family 'eighths': k/8, |k|<=1024) or 2^40 (family 'decimals': float32(k/10), float32(k/100)); "+
+			"the model computes on the numerators, i.e. in exact rational arithmetic; Sum (1-3 lists), SumMagnitude, Max, Shift, MagnitudeAt. A case is compared (and monitored) only if it is float-safe: "+
+			"by an order-free criterion every partial sum of its edges is exactly representable in float32; the other cases are counted and MEASURED (does the real result equal the exact one; "+
+			"does Sum change when the argument lists are passed in reverse order); distinct = distinct request line; non-trivial = every compared case")
+	r := lib.NewRand(f.Seed + 3232)
+	n := f.N(20000, 300000)
+	itoa := func(x int64) string { return strconv.FormatInt(x, 10) }
+	defer func() { magShift = 0 }()
+	for fam, shift := range []int{3, 40} {
+		magShift = shift
+		var cases []scase
+		var lists [][][]sg
+		for i := 0; i < n/2; i++ {
+			var c scase
+			var ls [][]sg
+			switch r.Intn(8) {
+			case 0:
+				l := randFloatSgs(r, fam)
+				ls, c = [][]sg{l}, scase{"summag", "", showSgs(l)}
+			case 1:
+				l := randFloatSgs(r, fam)
+				ls, c = nil, scase{"max", "", showSgs(l)}
+			case 2:
+				l := randFloatSgs(r, fam)
+				ls, c = nil, scase{"shift", itoa(aroundBreakpoints(r, l) * int64(1-2*r.Intn(2))), showSgs(l)}
+			case 3:
+				l := randFloatSgs(r, fam)
+				ls, c = nil, scase{"magat", itoa(aroundBreakpoints(r, l)), showSgs(l)}
+			default:
+				m := 1 + r.Intn(3)
+				ls = make([][]sg, m)
+				for j := range ls {
+					ls[j] = randFloatSgs(r, fam)
+				}
+				c = scase{"sum", "", showSgLists(ls)}
+			}
+			cases = append(cases, c)
+			lists = append(lists, ls)
+		}
+		lines := make([]string, len(cases))
+		for i, c := range cases {
+			lines[i] = c.line()
+		}
+		model, err := drv.Batch(lines)
+		if err != nil {
+			k.Fail(err)
+			return
+		}
+		famName := []string{"eighths", "decimals"}[fam]
+		for i, c := range cases {
+			o := c.runCode()
+			k.Count(famName + "/" + c.Op)
+			if floatSafe(lists[i]) {
+				k.Count(famName + "/float-safe(compared)")
+				k.Record(lines[i], true, c, model[i], o.text)
+				mon.Eval(lines[i], true, nil)
+				mon.Count("float32/" + c.Op)
+				c.safeMonitor(mon, o)
+				continue
+			}
+			k.Count(famName + "/float-unsafe(measured, not compared)")
+			if o.text == model[i] {
+				k.Count(famName + "/unsafe: real result equals the exact result")
+			} else {
+				k.Count(famName + "/unsafe: real result differs from the exact result (rounding)")
+			}
+			if c.Op == "sum" && len(lists[i]) > 1 {
+				rev := make([][]sg, len(lists[i]))
+				for j := range rev {
+					rev[j] = lists[i][len(rev)-1-j]
+				}
+				o2 := scase{"sum", "", showSgLists(rev)}.runCode()
+				if o2.text != o.text {
+					k.Count(famName + "/unsafe: Sum depends on the order of its argument lists")
+				} else {
+					k.Count(famName + "/unsafe: Sum same for reversed argument lists")
+				}
+			}
+		}
+	}
+}
+
+func runSegEdges(f lib.Flags, res *lib.Result, drv *lib.Driver, mon *lib.Monitor) {
+	k := res.Tie("segments-int64-edges", "K1",
+		"lists of 1-3 segments with lengths from {2^61, 2^62-1, 2^62, 2^62+1, 2^63-6, 2^63-2, 2^63-1 (built as a saturating Duration proto), 0, 1, 3}, optionally a length-less tail, "+
+			"d at a (wrapped) cumulative length, MaxInt64, MinInt64(+1) or 0, +-1, negated a third of the time; ActiveAt, MagnitudeAt, MaxAfter, Duration, Cut, Shift, Sum of 1-2 lists: "+
+			"the model computes with 64-bit wrap-around like the code, so cases whose totals overflow are compared too (the monitor counts them as excluded and judges the rest); "+
+			"distinct = distinct request line; non-trivial = every case")
+	r := lib.NewRand(f.Seed + 1818)
+	n := f.N(20000, 300000)
+	cases := make([]scase, n)
+	for i := range cases {
+		cases[i] = randHugeCase(r)
+	}
+	compareSeg(k, mon, drv, cases)
 }
 
 func compareSeg(t *lib.Tie, mon *lib.Monitor, drv *lib.Driver, cases []scase) {
